@@ -110,6 +110,7 @@ type Exec struct {
 	constDone     int
 	constMemo     map[int]*smt.Term
 	localMerge    map[string]bool
+	noMerge       bool
 	formattedBasketDenoms []*smt.Term
 }
 
